@@ -27,7 +27,7 @@ for d in dirs:
     res = {}
     try:
         for cid in checks:
-            p = subprocess.run(['timeout', '900', './check', cid], cwd=V, capture_output=True, text=True)
+            p = subprocess.run(['timeout', '900', './check', cid], cwd=V, capture_output=True, text=True, env=dict(os.environ, VERIF_EVIDENCE_DIR=f'{V}/out/evidence-seeded'))
             sigs = sorted(set(re.findall(r'^  signature: (.*)$', p.stdout, re.M)))
             nviol = len(re.findall(r'^VIOLATION', p.stdout, re.M))
             res[cid] = {'exit': p.returncode, 'violation_lines': nviol, 'signatures': sigs}
